@@ -167,7 +167,7 @@ func checkC17(p *Prog, r *Report) {
 				}
 				return
 			}
-			bad = append(bad, "flag assigned "+exprKey(v)+" (overwritten, not accumulated) on the edge from b"+itoa(pred.Index))
+			bad = append(bad, "flag assigned "+sk(v)+" (overwritten, not accumulated) on the edge from b"+itoa(pred.Index))
 		}
 		for i, e := range flag.Edges {
 			pred := header.Preds[i]
@@ -187,10 +187,10 @@ func checkC17(p *Prog, r *Report) {
 			if ret, ok := in.(*ssa.Return); ok {
 				nRet++
 				rs := p.RelsAt(rm, ret)
-				r.Check("R17a", "translate returns only when no package failed", instrPos(in), rs[exprKey(flag)+" == false"],
-					fmt.Sprintf("normal return (exit status 0) reachable without fact `%s == false`; facts: %v", exprKey(flag), relList(rs)))
+				r.Check("R17a", "translate returns only when no package failed", instrPos(in), rs[sk(flag)+" == false"],
+					fmt.Sprintf("normal return (exit status 0) reachable without fact `%s == false`; facts: %v", sk(flag), relList(rs)))
 				if patErr != nil {
-					r.Check("R17a", "translate returns only without pattern error", instrPos(in), rs[eqRel(exprKey(patErr), "nil")],
+					r.Check("R17a", "translate returns only without pattern error", instrPos(in), rs[eqRel(sk(patErr), "nil")],
 						"normal return reachable although the pattern error was not nil")
 				}
 			}
@@ -204,7 +204,7 @@ func checkC17(p *Prog, r *Report) {
 			if c, ok := in.(*ssa.Call); ok && calleeName(c) == "os.Exit" {
 				r.Sites++
 				st, okc := constInt(c.Call.Args[0])
-				r.Check("R17a", fmt.Sprintf("%s os.Exit status", f.Name()), instrPos(in), okc && st != 0, "os.Exit with status "+exprKey(c.Call.Args[0])+": every explicit exit of the command reports a failure, success is the normal return")
+				r.Check("R17a", fmt.Sprintf("%s os.Exit status", f.Name()), instrPos(in), okc && st != 0, "os.Exit with status "+sk(c.Call.Args[0])+": every explicit exit of the command reports a failure, success is the normal return")
 			}
 		})
 	}
@@ -250,7 +250,7 @@ func checkC17(p *Prog, r *Report) {
 	okPath, whyPath := false, ""
 	var fileAlloc ssa.Value
 	if jc, ok := write.Call.Args[0].(*ssa.Call); ok && (calleeName(jc) == "path.Join" || calleeName(jc) == "path/filepath.Join") {
-		k := exprKey(jc.Call.Args[0])
+		k := sk(jc.Call.Args[0])
 		// find the ImportToPath call among the joined elements
 		var itp *ssa.Call
 		for _, d := range flowOperands(jc.Call.Args[0]) {
@@ -274,7 +274,7 @@ func checkC17(p *Prog, r *Report) {
 			}
 		}
 	} else {
-		whyPath = "written path is " + exprKey(write.Call.Args[0]) + ", not path.Join(outRootDir, coq.ImportToPath(...))"
+		whyPath = "written path is " + sk(write.Call.Args[0]) + ", not path.Join(outRootDir, coq.ImportToPath(...))"
 	}
 	r.Check("R17c", "translate output path", instrPos(write), okPath, whyPath)
 	okCont := false
@@ -372,7 +372,7 @@ func checkWriteIfChanged(p *Prog, r *Report) {
 		}
 	}
 	r.Check("R17d", "writeFileIfChanged compares the file's bytes with the new data", instrPos(eqCall), okArgs, "bytes.Equal must compare os.ReadFile(name) with data")
-	eqKey := exprKey(eqCall) + " == true"
+	eqKey := sk(eqCall) + " == true"
 	badEq, badNe := "", ""
 	for _, pt := range paths {
 		ret, isRet := pt.endsInReturn()
@@ -445,9 +445,9 @@ func checkLoaderAndFlags(p *Prog, r *Report, tr *ssa.Function, tpCall *ssa.Call)
 			_, fld, _ := fieldOf(fa)
 			switch fld {
 			case "BuildFlags":
-				flags = exprKey(st.Val)
+				flags = sk(st.Val)
 			case "Dir":
-				dir = exprKey(st.Val)
+				dir = sk(st.Val)
 			case "Mode":
 				if m, ok := foldInt(st.Val); ok {
 					mode = m
@@ -540,7 +540,7 @@ func checkLoaderAndFlags(p *Prog, r *Report, tr *ssa.Function, tpCall *ssa.Call)
 			ok = true
 		}
 		r.Check("R17e", "flag -"+flagName+" wired to "+tr.Params[argIdx].Name(), instrPos(tc), ok,
-			fmt.Sprintf("argument %d of translate is %s, expected the variable registered for -%s", argIdx, exprKey(tc.Call.Args[argIdx]), flagName))
+			fmt.Sprintf("argument %d of translate is %s, expected the variable registered for -%s", argIdx, sk(tc.Call.Args[argIdx]), flagName))
 	}
 	wire("out", 1)
 	wire("dir", 2)
@@ -549,7 +549,7 @@ func checkLoaderAndFlags(p *Prog, r *Report, tr *ssa.Function, tpCall *ssa.Call)
 	if ac, ok := tc.Call.Args[0].(*ssa.Call); ok && calleeName(ac) == "flag.Args" {
 		okArgs = true
 	}
-	r.Check("R17e", "positional arguments are the patterns", instrPos(tc), okArgs, "patterns argument is "+exprKey(tc.Call.Args[0])+", expected flag.Args()")
+	r.Check("R17e", "positional arguments are the patterns", instrPos(tc), okArgs, "patterns argument is "+sk(tc.Call.Args[0])+", expected flag.Args()")
 	for fl, fld := range map[string]string{"source-comments": "AddSourceFileComments", "typecheck": "TypeCheck", "skip-interfaces": "SkipInterfaces"} {
 		ok := false
 		if a := flagVar[fl]; a != nil {
